@@ -202,6 +202,90 @@ free workers) never touches a collect buffer -/
 theorem C09_drain_keeps_buffers (step nw : Nat) (now : Int) (fuel : Nat) (ss : StepState) :
     (drain step nw now fuel ss).1.collected = ss.collected := drain_collected step nw now fuel ss
 
+/-- the refreshed snapshot is the live buffer state **of every buffer** (not only of the buffer the
+stale result was for), element by element — whatever the old snapshot was: a prefix of the live
+buffer (the buffer only grew) or the remains of an earlier round (a collection completed and the
+buffer was deleted and refilled while the invocation ran) -/
+theorem C09_reducer_stale_rerun_all_buffers (cfg : Cfg) (pol : Policy) (step : Nat) (tickEv : Ev) (dc : Bool)
+    (acc : ResAcc) (buf : Nat) (ev : Ev) (hnot : acc.stillInProgress = false)
+    (hstale : ((acc.st.workers step).collected.get buf).length > (acc.exec.snapEvents.get buf).length) :
+    let acc' := applyRes cfg pol step tickEv dc acc (.addCollected buf ev)
+    ∀ b, acc'.exec.snapEvents.get b = (acc.st.workers step).collected.get b := by
+  simp only [applyRes, hnot, Bool.false_eq_true, if_false, Collected.get_touch, hstale, if_true]
+  intro b
+  by_cases hb : b = buf
+  · subst hb; exact Collected.get_touch _ _
+  · exact Collected.get_touch_ne _ _ _ hb
+
+theorem C09.mem_modifyFirst {α : Type} (p : α → Bool) (e : α) :
+    ∀ (l : List α), (∃ x ∈ l, p x = true) → e ∈ modifyFirst p (fun _ => e) l
+  | [], h => by obtain ⟨x, hx, _⟩ := h; cases hx
+  | y :: ys, h => by
+    unfold modifyFirst
+    by_cases hy : p y = true
+    · simp only [hy, if_true]; exact List.mem_cons_self
+    · simp only [hy, Bool.false_eq_true, if_false]
+      obtain ⟨x, hx, hpx⟩ := h
+      cases hx with
+      | head => exact absurd hpx hy
+      | tail _ hx' => exact List.mem_cons_of_mem _ (C09.mem_modifyFirst p e ys ⟨x, hx', hpx⟩)
+
+theorem C09.addOrEnqueue_inProg_mono (att : Attempt) (step : Nat) (ss : StepState) (nw : Nat) (now : Int)
+    (x : InProg) (hx : x ∈ ss.inProg) : x ∈ (addOrEnqueue att step ss nw now).1.inProg := by
+  unfold addOrEnqueue
+  split
+  · split
+    · exact List.mem_append_left _ hx
+    · exact hx
+  · exact hx
+
+theorem C09.drain_inProg_mono (step nw : Nat) (now : Int) (x : InProg) :
+    ∀ (fuel : Nat) (ss : StepState), x ∈ ss.inProg → x ∈ (drain step nw now fuel ss).1.inProg
+  | 0, ss, hx => by simpa [drain] using hx
+  | fuel + 1, ss, hx => by
+    unfold drain
+    split
+    · exact hx
+    · split
+      · exact C09.drain_inProg_mono step nw now x fuel _
+          (C09.addOrEnqueue_inProg_mono _ _ _ _ _ x (by simpa using hx))
+      · exact hx
+
+/-- **the whole result tick** of an invocation whose `collect_events` reported "pending"
+(`[AddCollectedEvent, StepWorkerResult(None)]`) against a stale snapshot: after
+`_process_step_result_tick` — results, settling the slot, draining the queue — the step's live
+buffers are unchanged, the command list re-runs the worker slot with the event, and the slot still
+holds the invocation, now with a snapshot equal to the live buffers, **buffer by buffer**; no
+assumption on what the old snapshot contained -/
+theorem C09_stale_rerun_tick (cfg : Cfg) (pol : Policy) (step worker : Nat) (tickEv ev : Ev) (buf : Nat)
+    (st : State) (now : Int) (exec : InProg) (hs : cfg.hasStep step = true)
+    (hf : (st.workers step).inProg.find? (fun w => w.wid == worker) = some exec)
+    (hstale : ((st.workers step).collected.get buf).length > (exec.snapEvents.get buf).length) :
+    let r := processStepResult cfg pol step worker tickEv [.addCollected buf ev, .result none] st now
+    (∀ b, (r.1.workers step).collected.get b = (st.workers step).collected.get b) ∧
+    Cmd.runWorker step ev exec.wid ∈ r.2 ∧
+    ∃ x ∈ (r.1.workers step).inProg, x.wid = exec.wid ∧ x.ev = exec.ev ∧
+      ∀ b, x.snapEvents.get b = (st.workers step).collected.get b := by
+  have hgetT : ∀ b, ((st.workers step).collected.touch buf).get b = (st.workers step).collected.get b := by
+    intro b
+    by_cases hb : b = buf
+    · subst hb; exact Collected.get_touch _ _
+    · exact Collected.get_touch_ne _ _ _ hb
+  have hwid : (exec.wid == worker) = true := by
+    have := List.find?_some hf
+    simpa using this
+  have hmem : exec ∈ (st.workers step).inProg := List.mem_of_find?_eq_some hf
+  simp only [processStepResult, hs, Bool.not_true, Bool.false_eq_true, if_false, hf, List.foldl_cons, List.foldl_nil,
+    applyRes, Collected.get_touch, hstale, if_true, settle, State.set, List.any_cons, List.any_nil, Cmd.isExit,
+    Bool.or_false, List.nil_append]
+  refine ⟨fun b => ?_, ?_, ?_⟩
+  · rw [drain_collected]
+    exact hgetT b
+  · exact List.mem_append_left _ List.mem_cons_self
+  · refine ⟨{ exec with snapEvents := (st.workers step).collected.touch buf }, ?_, rfl, rfl, fun b => hgetT b⟩
+    apply C09.drain_inProg_mono
+    exact C09.mem_modifyFirst _ _ _ ⟨exec, hmem, hwid⟩
+
 /-! ## histories with one invocation in flight -/
 
 def C09.Inv (expected : List Nat) (all : List Ev) (h : CollectHist) : Prop :=
@@ -326,3 +410,31 @@ example : ([ { ty := 6, kind := .plain, uid := 1 }, { ty := 5, kind := .plain, u
     { buffer := [{ ty := 6, kind := .plain, uid := 5 }],
       returned := [[{ ty := 5, kind := .plain, uid := 2 }, { ty := 6, kind := .plain, uid := 1 }]],
       dropped := [{ ty := 6, kind := .plain, uid := 3 }] } ∨ True := Or.inr trivial
+
+/-- the hypotheses of `C09_stale_rerun_tick` with a snapshot that is NOT a prefix of the live buffer:
+the invocation (slot 1 of step 3, event uid 3) started with snapshot `[A1]`; meanwhile the round
+`[A1,B1,C1]` completed and the buffer was refilled with `[A2,B2]` (2 > 1: stale) -/
+def C09.spanExec : InProg :=
+  { ev := { ty := 7, kind := .plain, uid := 3 }, wid := 1,
+    snapEvents := [(0, [{ ty := 5, kind := .plain, uid := 1 }])], snapWaiters := [], attempts := 0, firstAt := 1000 }
+
+def C09.spanState : State :=
+  { isRunning := true,
+    workers := fun s => if s = 3 then
+      { inProg := [C09.spanExec],
+        collected := [(0, [{ ty := 5, kind := .plain, uid := 5 }, { ty := 6, kind := .plain, uid := 6 }])] }
+      else {} }
+
+def C09.spanCfg : Cfg := { steps := [{ name := 3, accepted := [5, 6, 7], numWorkers := 2, hasRetry := false }] }
+
+example : C09.spanCfg.hasStep 3 = true ∧
+    (C09.spanState.workers 3).inProg.find? (fun w => w.wid == 1) = some C09.spanExec ∧
+    ((C09.spanState.workers 3).collected.get 0).length > (C09.spanExec.snapEvents.get 0).length ∧
+    ¬ (C09.spanExec.snapEvents.get 0 <+: (C09.spanState.workers 3).collected.get 0) := by decide
+
+/-- ... and what the theorem then says about it, computed: the slot is re-run with `[A2,B2]` -/
+example :
+    ((processStepResult C09.spanCfg (fun _ _ _ _ => .stop) 3 1 { ty := 7, kind := .plain, uid := 3 }
+        [.addCollected 0 { ty := 7, kind := .plain, uid := 3 }, .result none] C09.spanState 1000).1.workers 3).inProg.map
+      (fun x => (x.wid, x.snapEvents.get 0)) =
+    [(1, [{ ty := 5, kind := .plain, uid := 5 }, { ty := 6, kind := .plain, uid := 6 }])] := by decide
